@@ -1,12 +1,14 @@
 #!/usr/bin/env python3
 """Prints the markdown table of benign changes (DESIGN.md 7.10) from /verif/seeded/benign-*/meta.json."""
 import json, glob, os
-print("| id | change that keeps the property (one line) | builds + suite | quick | thorough (reduced budget) |")
-print("|---|---|---|---|---|")
+print("| id | change that keeps the property (one line) | builds + suite | quick (first evaluation) | thorough (reduced budget) | final machinery, quick tier |")
+print("|---|---|---|---|---|---|")
 for f in sorted(glob.glob("/verif/seeded/benign-*/meta.json")):
     m = json.load(open(f))
     sid = os.path.basename(os.path.dirname(f))[len("benign-"):]
     ok = m.get("patch_applies") and m.get("builds") and m.get("suite_passes_with_change")
     q = "silent (exit 0)" if m.get("check_exit") == 0 else "exit %s" % m.get("check_exit")
     t = "-" if "thorough_check_exit" not in m else ("silent (exit 0)" if m["thorough_check_exit"] == 0 else "exit %s" % m["thorough_check_exit"])
-    print("| %s | %s | %s | %s | %s %s |" % (sid, (m.get("change") or "")[:200].replace("|", "/").replace("\n", " "), "yes" if ok else "NO", q, t, m.get("note", "")))
+    r = m.get("recheck") or {}
+    fin = "-" if r.get("check_exit") is None else ("silent" if r["check_exit"] == 0 else "exit %s: %s" % (r["check_exit"], ";".join(r.get("classes", []))[:60]))
+    print("| %s | %s | %s | %s | %s %s | %s |" % (sid, (m.get("change") or "")[:200].replace("|", "/").replace("\n", " "), "yes" if ok else "NO", q, t, (m.get("note") or "")[:400], fin))
